@@ -393,7 +393,7 @@ def main():
     ap.add_argument('prop', nargs='?')
     ap.add_argument('--tier', default=os.environ.get('VERIF_TIER', 'quick'), choices=['quick', 'thorough'])
     ap.add_argument('--only'); ap.add_argument('--keep', action='store_true'); ap.add_argument('--replay')
-    ap.add_argument('--workers', type=int, default=int(os.environ.get('VERIF_WORKERS', '8')))
+    ap.add_argument('--workers', type=int, default=int(os.environ.get('VERIF_WORKERS', '12')))
     a = ap.parse_args()
     seed = int(os.environ.get('VERIF_SEED', '1'))
     if a.replay:
